@@ -111,6 +111,8 @@ structure Inv (c : Cfg) (s : St) : Prop where
   inflight : ∀ i, s.req i ≠ .idle → s.res i = none → s.reg i = true ∨ s.got i = true
   issued : ∀ i, s.res i ≠ none → s.req i ≠ .idle
   active : ∀ i, s.reg i = true ∨ s.got i = true → s.req i ≠ .idle
+  answered : ∀ i, s.reg i = true → (s.req i = .finished ∨ s.req i = .skipped) → s.respTransit i = true
+  hcan_of : ∀ i, s.hcan i = true → s.notice i = .delivered
   notice_iff : ∀ i, s.notice i ≠ .none ↔ ∃ dl, s.res i = some (.ctx dl)
   res_ctx : ∀ i dl, s.res i = some (.ctx dl) → s.ctxDone i = some dl
   pending_now : ∀ i, s.notice i = .pending → (c.info i).fault = false → s.now = s.noticeAt i
@@ -228,7 +230,7 @@ end Cancel
 namespace Cancel
 
 macro "destruct_inv" I:ident : tactic =>
-  `(tactic| obtain ⟨a1, a2, a3, a4, a5, a6, a7, a8, a9, a10, a11, a12, a13, a14, a15, a16, a17, a18, a19, a20, a21, a22⟩ := $I)
+  `(tactic| obtain ⟨a1, a2, a3, a4, a5, a6, a7, a8, a9, a10, a11, a12, a13, a14, a15, a16, a17, a18, a19, a20, a21, a22, a23, a24⟩ := $I)
 
 /-- The `dropped` clause of the invariant survives one more event in the log. -/
 theorem dropped_mono {c : Cfg} {s : St} (e : Ev) (I : Inv c s) :
